@@ -5317,6 +5317,14 @@ class NetCDFWrite(IOWrite):
             self.write_vars["dry_run"] = False
             self.write_vars["post_dry_run"] = True  # i.e. follows a dry run
 
+            # Every netCDF variable and dimension name of the dataset
+            # is in use, whether or not the first iteration came
+            # across it (it does not for, e.g., a domain variable, or
+            # a variable that is not part of any field).
+            self.write_vars["ncvar_names"].update(
+                self._dataset_names(filename)
+            )
+
             # Perform a second iteration to append, with knowledge of the
             # constructs existing in the file from the first iteration.
             return self._file_io_iteration(
@@ -5342,6 +5350,39 @@ class NetCDFWrite(IOWrite):
                 warn_valid=warn_valid,
                 group=group,
             )
+
+    def _dataset_names(self, filename):
+        """Return the names of the variables and dimensions of a dataset.
+
+        :Parameters:
+
+            filename: `str`
+                The name of the netCDF file.
+
+        :Returns:
+
+            `set`
+                The netCDF variable and dimension names, those of a
+                sub-group including the group structure.
+
+        """
+        names = set()
+        nc = netCDF4.Dataset(filename, "r")
+        try:
+            groups = [nc]
+            while groups:
+                group = groups.pop()
+                prefix = ""
+                if group.parent is not None:
+                    prefix = group.path + "/"
+
+                names.update(prefix + name for name in group.variables)
+                names.update(prefix + name for name in group.dimensions)
+                groups.extend(group.groups.values())
+        finally:
+            nc.close()
+
+        return names
 
     def _file_io_iteration(
         self,
